@@ -5,7 +5,8 @@
    is the filter of a client UDP listener; [ip_equal] is net.IP.Equal. *)
 From Coq Require Import List NArith Bool.
 From GVL Require Import NList.
-From GV_peerbind Require Import Model Proofs.
+From GVG Require Import Kern.
+From GV_peerbind Require Import Model Proofs Bridge.
 Import ListNotations.
 Open Scope N_scope.
 
@@ -60,6 +61,19 @@ Theorem C19_peerbind_udp_only_from_peer_client : forall ds c c' oks,
   (anyport c = false -> readport c' = readport c).
 Proof. exact udp_only_from_peer_client. Qed.
 Print Assumptions C19_peerbind_udp_only_from_peer_client.
+
+(* BRIDGE (tools/go2coq): cl_recv IS the filter of clientUDPListener.run written with the two conditions translated
+   from the Go source on this run: u.c.AnyPortEnable && u.readPort == 0 (latch the first source port) and
+   u.readPort != uaddr.Port (drop the datagram). *)
+Theorem C19_peerbind_client_port_filter_is_the_code : forall c src sport len now,
+  cl_recv c src sport len now = cl_recv_k c src sport len now.
+Proof. exact client_port_filter_is_the_code. Qed.
+Print Assumptions C19_peerbind_client_port_filter_is_the_code.
+
+Example C19_example_kernels :
+  k_pb_latch_port true 0 = true /\ k_pb_latch_port false 0 = false /\ k_pb_latch_port true 5000 = false /\
+  k_pb_wrong_port 5000 5000 = false /\ k_pb_wrong_port 5000 5001 = true.
+Proof. vm_compute. repeat split. Qed.
 
 (* non-vacuity: 127.0.0.1 registered in 4-byte form; a datagram reported in IPv4-mapped form from the same
    port is delivered, one from 127.0.0.2 or from another port is not; after removeClient nothing is *)
